@@ -44,6 +44,21 @@ CLAIMED = {
        "limiting, dictionary wrap, and therefore losslessness for all inputs/configurations.",
   technique="path-sensitive event-count dataflow on the CFG (exactly-once / must-precede); post-dominator must-follow; field-coverage (E-COVER) with loop-bound vs array-dimension comparison; who-may-write table; table agreement",
   ref="4/C01"),
+ "C20": dict(
+  text="Quoting/eval/sed discipline of xzgrep, xzdiff, xzless, xzmore decided on a shell AST (own POSIX sh parser): (QUOTE) "
+       "taint from the positional parameters through assignments and command substitutions; every tainted expansion in a "
+       "command word, for-list or redirection is double-quoted (deliberately split variables are listed and proven "
+       "untainted), echo never prints tainted data, printf formats are constants, tainted test operands only in 2/3-arg "
+       "forms; (EVAL) every eval argument is a constant, a single-quoted deferred quoted expansion or a double-quoted string "
+       "expanding only escaped accumulators; every store to an accumulator (grep, operands, optarg, arg2, cmp, the in-place "
+       "re-quoted option) uses '...' under a case arm preceded by an arm that catches every value containing a quote, or "
+       "the printf/expr ...X | sed \"$escape\" pipeline after an opening quote; $escape is the exact constant program; (SED) "
+       "the label fallback escapes the s delimiter, & and backslash, continues lines, under a case testing exactly those "
+       "characters, constant on sed failure; (OPT) -- before every file operand; (STATUS) status captures receive only "
+       "`echo $?`, xzdiff checks readability first and maps decompressor failure to 2. NOT decided: equality of output and "
+       "exit status with grep/diff/cmp, behaviour of sed/expr/grep themselves.",
+  technique="shell AST taint and quoting-context analysis; idiom (typestate) rule on accumulator stores; case-arm coverage of the quote character; constant evaluation of the sed programs",
+  ref="4/C20"),
  "C15": dict(
   text="Structural and finite-domain clauses of BCJ/delta invertibility and format stability: (SYM) in every *_code() the "
        "direction flag only selects src+pc vs src-pc (or negates pc) -- detection, gating (incl. the ARM64 ADRP range gate), "
